@@ -390,72 +390,36 @@ func sendsOn(fn *ssa.Function, chanType string) []ssa.Instruction {
 }
 
 func c16Worker(r *Run, fn *ssa.Function) {
-	clo := r.Fn("(*scanner.Fetcher).runWorker$1")
-	if clo == nil {
+	// the one get-entries request of the worker: made by the worker function itself or by a
+	// function literal of it (the one it hands to the retry helper)
+	var reqs []ssa.CallInstruction
+	for _, f := range append([]*ssa.Function{fn}, fn.AnonFuncs...) {
+		reqs = append(reqs, CallsTo(f, "iface(scanner.LogClient).GetRawEntries")...)
+	}
+	_, cbs := c16Callbacks(r, fn)
+	if !r.Check("runWorker:request", len(reqs) == 1, r.FnPos(fn), fmt.Sprintf("expected exactly one call of iface(scanner.LogClient).GetRawEntries in %s, found %d", FuncName(fn), len(reqs))) || len(cbs) == 0 {
+		r.Fail("runWorker:callback", r.FnPos(fn), fmt.Sprintf("undecided: %d get-entries requests, %d callback invocations", len(reqs), len(cbs)))
 		return
 	}
-	req := r.OneCall(clo, "runWorker:request", "iface(scanner.LogClient).GetRawEntries")
-	cb := CallsTo(fn, "dyn(p3)")
-	if req == nil || len(cb) != 1 {
-		r.Fail("runWorker:callback", r.FnPos(fn), fmt.Sprintf("undecided: %d callback invocations", len(cb)))
-		return
-	}
-	strip := func(s string) string { return strings.ReplaceAll(s, "^", "") }
-	reqStart := strip(r.D.D(CallArgs(req)[2]))
-	// callback argument
-	batch := CallArgs(cb[0])[0]
-	a := baseAlloc(batch)
-	if a == nil {
-		r.Fail("runWorker:batch", r.Where(cb[0]), "undecided: the batch handed to the callback is not built locally")
-		return
-	}
-	name := r.D.allocName(a)
-	var startVal, entriesVal ssa.Value
-	for _, st := range r.StoresTo(fn, "&("+name+".Start)") {
-		startVal = st.Val
-	}
-	for _, st := range r.StoresTo(fn, "&("+name+".Entries)") {
-		entriesVal = st.Val
-	}
-	if startVal == nil || entriesVal == nil {
-		r.Fail("runWorker:batch.fields", r.Where(cb[0]), "undecided: Start / Entries of the delivered batch not set")
-		return
-	}
-	r.Check("runWorker:batch.Start=requested-start", r.D.D(startVal) == reqStart, r.Where(cb[0]), fmt.Sprintf("batch is labelled Start=%s; the request that produced it started at %s", r.D.D(startVal), reqStart))
-	// entries come from the response the request stored
-	respStores := 0
-	var respAlloc string
-	eachInstr(clo, func(in ssa.Instruction) {
-		if st, ok := in.(*ssa.Store); ok && glob("iface(scanner.LogClient).GetRawEntries(*)#0", r.D.D(st.Val)) {
-			respStores++
-			respAlloc = strip(r.D.D(st.Addr))
-		}
-	})
-	r.Check("runWorker:batch.Entries=response", respStores == 1 && r.D.D(entriesVal) == "*"+respAlloc+".Entries", r.Where(cb[0]), "batch Entries ← "+r.D.D(entriesVal)+" (the response of that request)")
-	// cursor advance: requested-start variable += len(delivered entries)
-	adv := 0
-	eachInstr(fn, func(in ssa.Instruction) {
-		st, ok := in.(*ssa.Store)
-		if !ok || "&("+reqStart+")" != r.D.D(st.Addr) {
-			return
-		}
-		adv++
-		got := r.D.Lin(st.Val, nil).String()
-		want := lin2("+"+reqStart, "+len("+r.D.D(entriesVal)+")")
-		r.Check("runWorker:advance", got == want, r.Where(st), "cursor ← "+got+" (must be cursor + len(delivered entries): "+want+")")
-		r.Check("runWorker:advance-after-delivery", cb[0].Block() == st.Block() || cb[0].Block().Dominates(st.Block()), r.Where(st), "the cursor advances only after the batch was delivered")
-	})
-	r.Check("runWorker:advance.once", adv == 1, r.FnPos(fn), fmt.Sprintf("%d stores advance the requested-start cursor %s", adv, reqStart))
+	req := reqs[0]
 	// the request ends at, and the inner loop runs up to, the last index of the range the
 	// generator emitted — whichever index the range's end field stands for (rules_t6c16.go)
-	c16WorkerEndChecks(r, fn, req, cb[0])
-	// failed request: neither delivered nor advanced
-	r.MustGuardAfter(fn, "runWorker:failed-request-not-delivered", "nil?(*backoff.Backoff).Retry(*)", "non", []ssa.Instruction{cb[0]}, "callback")
-	if retry := r.OneCall(fn, "runWorker:retry", "(*backoff.Backoff).Retry"); retry != nil {
-		r.ExpectArg(retry, "runWorker:retry.fn", 2, "closure:(*scanner.Fetcher).runWorker$1")
+	c16WorkerEndChecks(r, fn, req)
+	// what reaches the callback: every index of the range once, under its own label, with the
+	// bytes of the response that was asked for it — however the worker collects, labels and
+	// hands over (rules_t8c16.go)
+	if cv := c16Convention(r); cv.q != nil && cv.reqWhy == "" {
+		c16Account(r, fn, cv.q, req)
+	} else {
+		r.Fail("runWorker:accounting", r.FnPos(fn), "undecided: "+cv.reqWhy)
 	}
-	for _, ret := range Returns(clo) {
-		r.Check("runWorker:request-error-returned", glob("iface(scanner.LogClient).GetRawEntries(*)#1", r.D.D(ret.Results[0])), r.Where(ret), "the retry closure returns the request's error")
+	if clo := req.Parent(); clo != fn {
+		if retry := r.OneCall(fn, "runWorker:retry", "(*backoff.Backoff).Retry"); retry != nil {
+			r.ExpectArg(retry, "runWorker:retry.fn", 2, "closure:"+FuncName(clo))
+		}
+		for _, ret := range Returns(clo) {
+			r.Check("runWorker:request-error-returned", glob("iface(scanner.LogClient).GetRawEntries(*)#1", r.D.D(ret.Results[0])), r.Where(ret), "the retry closure returns the request's error")
+		}
 	}
 }
 
